@@ -223,6 +223,10 @@ def run_cell(spec, res):
     STUB["titration_log"] = []
     opts = [f"--ff={spec['ff']}", "--titration-state-method=propka", f"--with-ph={ph}"] + \
         ([spec["neutral"]] if spec.get("neutral") else [])
+    if spec["seed"] % 4 == 2:
+        # an output naming scheme of another force field must not take part in the support decision
+        opts.append("--ffout=" + rng.choice([f for f in common.FFS if f != spec["ff"]]))
+        res.count("cells_with_ffout")
     if spec.get("neutral"):
         res.count("neutral_terminus_cells")
     try:
